@@ -325,7 +325,48 @@ func (s *sim) audit(n *node, ctx string, o auditOpts) {
 			}
 		}()
 	}
+	// a block beyond the tip (a save that a crash interrupted) may be absent, but what is
+	// loadable of it must agree: a meta implies the block
+	if m := bs.LoadBlockMeta(height + 1); m != nil {
+		e.Count("probe.unfinished_save_beyond_tip")
+		if bs.LoadBlock(height+1) == nil {
+			e.Fail("C18", "meta-without-block", "%s: store range [%d,%d]; the meta of height %d can be loaded but its block cannot", ctx, base, height, height+1)
+		}
+	}
 	s.auditState(n, ctx, base, height, stH)
+}
+
+// classifyHistorical names the class of a LoadValidators mismatch. The narrow class
+// "historical-set-rescale-skipped": the loaded set has the right members and is the set stored
+// at the last change / checkpoint height L rotated the right number of times, but with the
+// scaling step applied only before the first rotation, and a later rotation of the real
+// history did scale. Everything else is "historical-set-wrong".
+func (s *sim) classifyHistorical(h int64, got *types.ValidatorSet) string {
+	want := s.vals[h]
+	if want == nil || got == nil || !bytes.Equal(got.Hash(), want.Hash()) {
+		return "historical-set-wrong"
+	}
+	key := fmt.Sprintf("%d/%s", h, setString(got))
+	if c, ok := s.classMemo[key]; ok {
+		return c
+	}
+	res := "historical-set-wrong"
+	for L := h - 1; L >= s.init && s.vals[L] != nil && bytes.Equal(s.vals[L].Hash(), want.Hash()); L-- {
+		stored := L == s.init || L%100000 == 0 || s.vals[L-1] == nil || !bytes.Equal(s.vals[L-1].Hash(), want.Hash())
+		if !stored {
+			continue
+		}
+		once, _ := refIncrementScaleOnce(refFromReal(s.vals[L]), int(h-L))
+		if cmpRefReal(once, got, true) == "" {
+			full, _ := refIncrement(refFromReal(s.vals[L]), int(h-L))
+			if cmpRefReal(full, want, true) == "" && cmpRefReal(full, got, true) != "" {
+				res = "historical-set-rescale-skipped"
+			}
+		}
+		break
+	}
+	s.classMemo[key] = res
+	return res
 }
 
 // auditState: validator sets and consensus parameters of every retained height (and of the
@@ -349,7 +390,7 @@ func (s *sim) auditState(n *node, ctx string, base, height, stH int64) {
 			e.Fail(prop, sig, "%s: LoadValidators(%d) with store range [%d,%d], state at %d: %v", ctx, h, base, height, stH, err)
 		}
 		if msg := equalSets(got, want); msg != "" {
-			e.Fail("C08", "historical-set-wrong", "%s: LoadValidators(%d) is not the set that was in force there: %s | loaded %s | in force %s", ctx, h, msg, setString(got), setString(want))
+			e.Fail("C08", s.classifyHistorical(h, got), "%s: LoadValidators(%d) is not the set that was in force there: %s | loaded %s | in force %s", ctx, h, msg, setString(got), setString(want))
 		}
 		if h > topP {
 			continue
